@@ -28,6 +28,9 @@
        (PUSH_PROMISE, ignored frame types) still reports its end. *)
 EXTENDS H3Frames, TLC
 
+CONSTANT Shipped   \* FALSE: the design.  TRUE: the two DESIGN points as the code was shipped -- used only
+                   \* to show that the theorem tells the difference (TLC must then find a counterexample)
+
 \* ------------------------------------------------------------------ events
 Hev(sid, blk, push, end)   == [k |-> "H", sid |-> sid, blk |-> blk, push |-> push, end |-> end]
 Pev(sid, blk, pid)         == [k |-> "P", sid |-> sid, blk |-> blk, pid |-> pid]
@@ -66,7 +69,7 @@ HandleF(c, s, ft, fd, resume, ended) ==
       Er(code)    == [s |-> s, evs |-> <<>>, err |-> code, blocked |-> FALSE]
       Bl(s2)      == [s |-> s2, evs |-> <<>>, err |-> "", blocked |-> TRUE]
       \* DESIGN: the end of the stream is reported with whatever frame comes last
-      EndOnly     == IF ended THEN <<Dev(s.sid, <<>>, s.push, TRUE)>> ELSE <<>> IN
+      EndOnly     == IF ended /\ ~Shipped THEN <<Dev(s.sid, <<>>, s.push, TRUE)>> ELSE <<>> IN
   CASE ft = DATA ->
          IF s.hs # 1 THEN Er("H3_FRAME_UNEXPECTED")
          ELSE Ok(s, IF ended \/ fd # <<>> THEN <<Dev(s.sid, fd, s.push, ended)>> ELSE <<>>)
@@ -196,7 +199,7 @@ Unblock(c, sids, evs) ==
   ELSE LET sid == CHOOSE x \in sids : \A y \in sids : x <= y
            s == c.st[sid]
            \* DESIGN: resumed as the frame that was blocked (the code resumes HEADERS)
-           h == HandleF(c, s, s.bkind, <<>>, TRUE, s.ended /\ s.buf = <<>>) IN
+           h == HandleF(c, s, IF Shipped THEN HEADERS ELSE s.bkind, <<>>, TRUE, s.ended /\ s.buf = <<>>) IN
     IF h.err # "" THEN [c |-> c, evs |-> <<>>, err |-> h.err]
     ELSE LET s1 == [h.s EXCEPT !.blocked = FALSE, !.bkind = None, !.bpid = None, !.bblk = <<>>]
              r == IF s1.buf # <<>> THEN ReqF(c, s1, <<>>, s1.ended)
@@ -248,10 +251,11 @@ Client == plan[3]
 \* the plans of the two tiers of check C14 (cfg: Plan <- PlanQuick), and the one
 \* a trace module needs (it only uses the operators)
 PlanQuick == {<<"req", 7, TRUE>>, <<"req", 6, FALSE>>, <<"push", 5, TRUE>>, <<"reqenc", 5, TRUE>>,
-              <<"two", 3, TRUE>>, <<"uni", 2, TRUE>>}
+              <<"two", 3, TRUE>>, <<"uni", 1, TRUE>>}
 PlanThorough == {<<"req", 10, TRUE>>, <<"req", 9, FALSE>>, <<"push", 8, TRUE>>, <<"push", 6, FALSE>>,
                  <<"reqenc", 8, TRUE>>, <<"reqenc", 6, FALSE>>, <<"two", 4, TRUE>>, <<"uni", 4, TRUE>>, <<"uni", 3, FALSE>>}
 PlanTrace == {<<"req", 1, TRUE>>}
+PlanProbe == {<<"reqenc", 5, TRUE>>}          \* with Shipped = TRUE
 PlanNone == {}
 
 \* ---- the frames the peer may write
@@ -290,8 +294,10 @@ Starts ==
     [] Cfg = "reqenc" -> {(0 :> <<>>) @@ (ENC :> <<ST_QENC>> \o EncPayload)}
     [] Cfg = "two"    -> {(0 :> <<>>) @@ (4 :> <<>>) @@ (ENC :> <<ST_QENC>> \o EncPayload)}
     [] Cfg = "push"   -> {(15 :> <<ST_PUSH, 3>>), (15 :> <<ST_PUSH>> \o EncVar2(3))}
-    [] Cfg = "uni"    -> {(3 :> <<ST_CONTROL>>) @@ (11 :> b) : b \in {EncVar(ST_WT) \o <<9>>, <<ST_QDEC>>, EncVar2(33)}}
-                         \cup {(3 :> EncVar2(ST_CONTROL)) @@ (11 :> EncVar(ST_WT) \o EncVar2(9))}
+    [] Cfg = "uni"    -> {(3 :> <<ST_CONTROL>>) @@ (11 :> EncVar(ST_WT) \o <<9>>),
+                          (3 :> <<ST_CONTROL>>) @@ (11 :> EncVar2(33)),
+                          (3 :> EncVar2(ST_CONTROL)) @@ (11 :> EncVar(ST_WT) \o EncVar2(9)),
+                          (3 :> EncVar2(ST_CONTROL)) @@ (11 :> <<ST_QDEC>>)}
 \* bytes of the longest stream prefix (stream type, push / session id)
 Base == CASE Cfg = "push" -> 3 [] Cfg = "uni" -> 4 [] OTHER -> 0
 Growth(sid) ==
